@@ -187,6 +187,15 @@ where
             .ok_or(PlanningError::PlannerUninitialised)?;
         let goal = &pd.goal;
 
+        // A start state the checker rejects can never be part of a valid path.
+        let vc = self
+            .validity_checker
+            .as_ref()
+            .ok_or(PlanningError::PlannerUninitialised)?;
+        if !vc.is_valid(&pd.start_states[0]) {
+            return Err(PlanningError::InvalidStartState);
+        }
+
         let start_time = Instant::now();
         let mut rng = self
             .rng
